@@ -1,18 +1,32 @@
 """C37 -- every feature in a world is valid (edit half)  (MutableWorld family; see tools/mworld.py)"""
 import mworld
+import sworld
 
 META = {
     "engine": "mworld",
     "level": "model_checking",
     "text": 'InvValid (every feature of eff is valid) is checked by TLC on every reachable state; on the real worlds every transition of scenario 3 is executed and (a) an AddFeature the specification rejects must be rejected, (b) after every step every observed feature passes an independent validity check (>= 2 resolvable points, closed paths counter-clockwise, areas over existing closed paths of >= 3 points).',
-    "note": 'Small scope (<= 13 features on a convex polygon, 3 tag keys, 2 values); self-crossing loops are never generated (validity unspecified in the vendored s2). Trusted: TLC, harness/obs, vh-world. The build half of the property (builders dropping invalid features) is covered by the C36 check.',
+    "note": 'Small scope (<= 13 features on a convex polygon, 3 tag keys, 2 values); self-crossing loops are never generated (validity unspecified in the vendored s2). Trusted: TLC, harness/obs, vh-world. The build half runs every source of StaticWorld scenario 1 through the basic and the compact builder.',
     "technique": "TLA+ spec (MutableWorld) model-checked by TLC; exported state graph replayed on the real worlds",
 }
 
 
 def run(ctx):
-    return mworld.run_family(
+    # edit half: every transition of scenario 3 on the mutable worlds
+    mworld.run_family(
         ctx, "C37", scenarios=[3], impls=['basicmutable', 'overlay-basic', 'overlay-mutable', 'overlay-empty'],
-        sections=['result-overaccept', 'validity'],
-        meta_rule='every transition of scenario 3 executed via its shortest prefix on 4 world constructions + random walks; distinct = (scenario, impl, op path)',
-        assumptions=[])
+        sections=['result-overaccept', 'validity'], finish=False)
+    # build half: every source of StaticWorld scenario 1 (valid and invalid features of every class) built as a basic
+    # world and as a compact world; what the build keeps must pass the independent validity check and equal
+    # StaticWorld!ValidSubset (a kept invalid feature shows up as a lookup/validity mismatch)
+    return sworld.run_static(
+        ctx, "C37", 1,
+        variants=[{"impl": "basic", "cores": 1}, {"impl": "basic", "cores": 4}, {"impl": "compact", "cores": 2, "all_sources": True, "max": (40, 400)}],
+        sections=["validity", "build", "observe"],
+        rule='every transition of MutableWorld scenario 3 executed via its shortest prefix on 4 world constructions + random '
+             'walks; every source of StaticWorld scenario 1 built as basic (1, 4 goroutines) and compact worlds; after every '
+             'step / build every observed feature passes an independent validity check; distinct = (scenario, impl, op path) '
+             'and (impl, cores, source)',
+        assumptions=["self-crossing loops are never generated (their validity is unspecified in the vendored s2)"],
+        max_cases=ctx.pick(300, None),
+        interesting=lambda c: len(c["dropped"]) > 0)
